@@ -1290,7 +1290,10 @@ def cross_schema_by_name(check: Check, repo: Repo, rule: str = "CROSS-SCHEMA-BY-
             continue
         n += 1
         heads = [top_heads(mt.type_of(x) or "") for x in (c.left, c.comparators[0])]
-        if all(h and all(t.startswith("graphql.type.definition.GraphQL") and not t.endswith(("Kwargs", "Map")) for t in h) for h in heads):
+        # untyped fallback (values out of dict_diff are Any): `<a>.type <op> <b>.type`, `<a>.of_type <op> <b>.of_type`
+        chains = [x for x in (c.left, c.comparators[0]) if isinstance(x, ast.Attribute) and x.attr in ("type", "of_type")]
+        by_shape = len(chains) == 2 and unparse(chains[0]) != unparse(chains[1])
+        if by_shape or all(h and all(t.startswith("graphql.type.definition.GraphQL") and not t.endswith(("Kwargs", "Map")) for t in h) for h in heads):
             bad += 1
             check.ob(rule, c, f"{qualname_of(c)}: `{unparse(c)[:70]}`", False,
                      "two GraphQL type objects are compared directly; across schemas only str(type) / type.name are comparable")
@@ -1330,3 +1333,27 @@ def default_verbatim(check: Check, repo: Repo, rule: str = "DEFAULT-VERBATIM") -
             ok = isinstance(a, ast.Call) and call_name(a) == "get_default_value_ast"
             check.ob(rule, c, f"{q}: print_ast({unparse(c.args[0])[:40]})", ok,
                      "the literal of get_default_value_ast, unmodified" if ok else f"prints `{unparse(a)[:70]}`: the literal is transformed before printing")
+
+
+def assume_valid_fresh(check: Check, repo: Repo, rule: str = "ASSUME-VALID-FRESH") -> None:
+    check.rule(
+        rule,
+        "extend_schema decides afresh whether the produced schema counts as validated: every `assume_valid=<expr>` keyword "
+        "in utilities/extend_schema.py is computed from the function's own assume_valid parameter alone - never from the "
+        "kwargs of the schema being extended (config['assume_valid'], schema.assume_valid). An extension can add anything, "
+        "so the validity a caller vouched for on the base schema says nothing about the result; inheriting the flag lets "
+        "an invalid extended schema skip validate_schema and fail at execution time",
+    )
+    mod = repo.mod("utilities.extend_schema")
+    kws = [kw for c in ast.walk(mod.tree) if isinstance(c, ast.Call) for kw in c.keywords if kw.arg == "assume_valid"]
+    # dict literals {"assume_valid": ...} count as well
+    pairs = [(k, v) for d in ast.walk(mod.tree) if isinstance(d, ast.Dict) for k, v in zip(d.keys, d.values)
+             if isinstance(k, ast.Constant) and k.value == "assume_valid"]
+    exprs = [kw.value for kw in kws] + [v for _k, v in pairs]
+    if not exprs:
+        raise AnalysisError("extend_schema: no assume_valid keyword found")
+    for e in exprs:
+        names = {x.id for x in ast.walk(e) if isinstance(x, ast.Name)}
+        foreign = sorted(names - {"assume_valid"}) + [unparse(x)[:40] for x in ast.walk(e) if isinstance(x, (ast.Subscript, ast.Attribute))]
+        check.ob(rule, e, f"{qualname_of(e)}: assume_valid={unparse(e)[:50]}", not foreign,
+                 "the caller's own flag" if not foreign else f"also depends on {foreign}: the flag of the extended schema is inherited")
